@@ -9,6 +9,17 @@ def run(ctx):
     # pattern set is compared with the links of the real trie under every build schedule (white box; drift-level)
     vlib.case_component(ctx, "AhoLinks", "MultiMatch", "AhoImpl", ["MC_aho_quick.cfg", "MC_aho_thorough.cfg"] if ctx.tier == "quick" else ["MC_aho_quick.cfg", "MC_aho_thorough.cfg", "MC_aho_thorough2.cfg"], "c05",
                         extra_args=["-prop", "C05"], tlc_timeout=3000, overlays=["algz"], workers=8)
+    # the explicit-stack depth-first enumeration of PrefixSearch / FuzzySearch with its shared byte buffer, step by step
+    # (TLC: no fault, frames carry the byte offset of their rune, truncation on rune boundaries, every reported string a
+    # pattern at all times, final result exact, termination); the ordered result list of every (pattern set, key, mode)
+    # is compared with what the real functions return.  Vacuity guard: the variant whose frames carry rune counts
+    # (finding F8) must be rejected.
+    r = ctx.tlc("MultiMatch", "TrieDfs", "MC_dfs_pinned.cfg", workers=4, timeout=900)
+    if not any("RetSoundU" in e for e in r["errors"]):
+        raise vlib.Inconclusive("sanity: TrieDfs does not reject the rune-count variant of the backtracking:\n" + r["tail"])
+    ctx.cov["sanity_dfs"] = "ByteOffsets=FALSE (frames carry rune counts, as at the pinned commit): TLC reports RetSoundU violated"
+    vlib.case_component(ctx, "TrieDfs", "MultiMatch", "TrieDfs", ["MC_dfs_quick.cfg"] if ctx.tier == "quick" else ["MC_dfs_thorough.cfg"], "c05",
+                        extra_args=["-prop", "C05"], tlc_timeout=3000, overlays=["algz"], workers=8)
     # the growable ring queue of the failure-link construction, as a state machine of its own (white box only)
     try:
         vlib.seq_component(ctx, "NodeQueue", "MultiMatch", "NodeQueue", "MC_queue.cfg", "NodeQueueTrace", "QueueTrace.cfg", "nodequeue", ["algz"],
